@@ -10,6 +10,7 @@ Kap/Props/C07.lean; the topology `par` (parent of every node, any well-formed tr
 size and the number of points are universally quantified.
 -/
 import Kap.Proofs.C07TreeLive
+import Kap.Proofs.C07TreeMeasure
 namespace Kap.Props.C07Tree
 open Kap.C07 Kap.C07.Tree
 
@@ -78,5 +79,50 @@ example :
 theorem no_helper_sends_on_closed_edge_tree (cfg : Cfg) (par : List Nat) (kinds : List Kind) (n : Nat) (sched : List Act)
     (hg : cfg.barrierGuard = true) : noCrash (outcomeOf (Tree.run cfg par (init kinds n) sched)) = true :=
   noCrash_of (tnopanic_run hg (nopanic_init kinds n) sched)
+
+/-! ### Every schedule of the tree model is finite -/
+
+/-- **Every enabled action of the tree model strictly decreases a natural-number measure** — for EVERY topology (any
+`par`, well-formed or not), every configuration (also loopback nodes and the code before the repairs), every state:
+no schedule is infinite, whatever the scheduler does; no fairness is assumed. (A message taken by a forking node
+becomes one message per child edge; the measure weighs a message at node `k` of `n` with `3^(n-1-k)`, so the bound
+is exponential in the number of nodes.) -/
+theorem every_action_decreases_measure_tree (cfg : Cfg) (par : List Nat) (s s' : State) (a : Act)
+    (h : Tree.step cfg par s a = some s') : muT s' < muT s :=
+  muT_step h
+
+/-- … hence a schedule of enabled actions is never longer than the measure of its first state. -/
+theorem schedules_are_bounded_tree (cfg : Cfg) (par : List Nat) (s s' : State) (sched : List Act)
+    (h : Tree.runStrict cfg par s sched = some s') : sched.length + muT s' ≤ muT s :=
+  trunStrict_length h
+
+/-- Non-vacuity: enabled actions exist (a forking node takes a message, then serves its two children one after the other). -/
+example :
+    (Tree.runStrict { cap := 1, viaClose := false, hookLock := false, alertLeak := false } [0, 0, 0] (init [.pass, .post, .post] 1)
+      [.write, .forkTake, .forkLock, .forkPut, .node 0 .take, .node 0 .put, .node 0 .put, .node 2 .take, .node 1 .take]).map
+      (fun s => (s.nodes.map (·.got), s.nodes.map (·.owed), s.nodes.map (·.hand))) = some ([1, 1, 1], [0, 0, 0], [0, 1, 1]) := by decide
+
+/-! ### Stated, not proved, for trees -/
+
+/-- Exact accounting on a tree, per edge: what the source took is what was accepted minus what is still in the
+TaskMaster; what a forwarding node took is, for EACH child edge, in that edge, taken by the child, still owed by the
+forward loop, or among the messages whose forward loop was cut short (`dropped`). (Proved for chains:
+`Kap.Props.C07.accounting`; on trees checked by the correspondence runs only.) -/
+def accounting_tree_stmt : Prop :=
+  ∀ (cfg : Cfg) (par : List Nat) (kinds : List Kind) (n : Nat) (sched : List Act),
+    let s := Tree.run cfg par (init kinds n) sched
+    (∀ nd, s.nodes[0]? = some nd → s.accepted = s.lostIngest + s.ingest + s.forkHand + nd.inq + nd.got) ∧
+    (∀ (p c : Nat) (nd x : Nd), isChild par p c = true → s.nodes[p]? = some nd → s.nodes[c]? = some x → fwd nd.kind = true →
+      x.inq + x.got + x.owed ≤ nd.got ∧ nd.got ≤ x.inq + x.got + x.owed + nd.dropped)
+
+/-- Graceful stop delivers everything on a tree of pass / httpPost / alert nodes stopped by `TaskMaster.Close`: once
+the stop has returned and the goroutines are gone, every output in every branch has been handed exactly the accepted
+points. (Proved for chains: `Kap.Props.C07.stop_delivers_all_partial`; on trees checked on the real code by the
+gated / immediate fork cases, whose prediction from the tree model is the one-point interval.) -/
+def stop_delivers_all_tree_stmt : Prop :=
+  ∀ (cfg : Cfg) (par : List Nat) (kinds : List Kind) (n : Nat) (sched : List Act),
+    cfg.viaClose = true → cfg.barrierGuard = true → wfPar par kinds.length = true → (∀ k ∈ kinds, losslessKind n k = true) →
+    let s := Tree.run cfg par (init kinds n) sched
+    s.stopped = true → holds (outcomeOf s) = true ∧ (outcomeOf s).delivered.all (· = s.accepted) = true
 
 end Kap.Props.C07Tree
